@@ -1,10 +1,12 @@
 use crate::engine::Property;
 
 pub mod c06;
+pub mod c09;
 
 pub fn lookup(id: &str) -> Option<&'static dyn Property> {
     match id {
         "C06" => Some(&c06::C06),
+        "C09" => Some(&c09::C09),
         _ => None,
     }
 }
